@@ -822,6 +822,9 @@ def directed(ctx, w):
         'struct sm { char c; }; struct big { long a[5]; }; int f(struct sm, struct big, double, struct sm s) { return s.c; } int use(struct sm *a, struct big *b) { return f(*a, *b, 1.5, *a); }',
         'struct pr { float f; int i; }; struct pr mk(struct pr, struct pr b) { return b; } float use(struct pr *p) { return mk(*p, *p).f; }',
         'struct pt2 { long x, y; }; long vpick(struct pt2, ...) { return 0; } long use(struct pt2 *p) { return vpick(*p, *p, 1); }',
+        # named parameters after unnamed ones are bound to their own positions
+        'int second(int, int b) { return b; } int use(void) { return second(1, 2); }',
+        'long third(char, double, long c, float) { return c; } long use(void) { return third(1, 2, 3, 4); }',
         # named parameters of a variadic function are converted to the parameter types, not default-promoted
         'long total(long scale, double w, ...) { return scale; } long use(int k, float f) { return total(k, f, 10L); }',
         'long total2(unsigned long scale, float w, ...) { return scale; } long use(void) { return total2(3, 2, 20L); }',
